@@ -2,6 +2,7 @@
 from __future__ import annotations
 
 from . import common  # noqa: F401
+from . import aging
 
 import multiprocessing as mp
 import random
@@ -41,6 +42,7 @@ def _task(args):
                 path=[[a, v] for (_, a, v) in path])
 
 
+@aging.paused
 def run(rep, worlds, max_paths=None, maxlen=12, seed=0, procs=16, tlc_kw=None, edge_filter=None, probes=None):
     """worlds: list of (family, eager, dask, checknans).  Adds TLC runs, replay
     counts and tagged findings to the report; returns the list of findings
@@ -115,6 +117,7 @@ def report_findings(rep, findings, props):
         rep.extra["findings_for_other_properties"] = other
 
 
+@aging.paused
 def replay_path(rep, scenario, tags):
     """Re-execute exactly one recorded lifecycle path (./check <id> --replay <file>)."""
     wd = scenario["world"]
